@@ -4,8 +4,9 @@ import GomlVerif.Driver.Common
 import GomlVerif.Driver.DecSyntax
 /-!
 driver for C14: `(equiv <separate prog> <whole prog>)` →
-  `equiv closure-free`   the verified validator `Alpha.validate` accepts (`validate_sound` applies)
-  `equiv has-closures`   only the unverified structural comparison (renamed function = function) accepts
+  `equiv verified`       the verified validator `Alpha.validate` accepts (`validate_sound` applies; closures included)
+  `equiv unverified why` only the unverified structural comparison (renamed function = function) accepts;
+                         `why` = the first conjunct of `validFn` that fails
   `differ <function>`    neither does
 The renaming tried is the one the two pipelines differ by: every temporary of a function shifted
 by the offset between the first temporaries of the two bodies.
@@ -32,7 +33,8 @@ def runLine (l : String) : String :=
         shift prefixes ((offs.find? (·.1 == fname)).map (·.2) |>.getD 0)
       let names : List (String × List String) := S.fns.map fun f => (f.name, f.params.map (·.1) ++ namesOfE f.body)
       let Ns : String → List String := fun fname => (names.find? (·.1 == fname)).map (·.2) |>.getD []
-      if validate σs Ns S W then s!"{id}\tequiv\tclosure-free\tfns={S.fns.length}\tmoved={(offs.filter (·.2 != 0)).length}"
+      let nclos := (S.fns.filter fun f => !cfE f.body).length
+      if validate σs Ns S W then s!"{id}\tequiv\tverified\tfns={S.fns.length}\tmoved={(offs.filter (·.2 != 0)).length}\twith-closures={nclos}"
       else
         -- unverified fallback: the renamed function is the function, and the name sets agree
         let bad := S.fns.find? fun f =>
@@ -40,10 +42,26 @@ def runLine (l : String) : String :=
           | some g => !eqFn (renFn (σs f.name) f) g
           | none => true
         let extra := W.fns.find? fun g => (S.findFn g.name).isNone
+        -- why the verified validator said no (first failing conjunct of the first failing function)
+        let why : String :=
+          match S.fns.find? (fun f => match W.findFn f.name with
+              | some g => !validFn (σs f.name) (Ns f.name) f g
+              | none => true) with
+          | some f =>
+            match W.findFn f.name with
+            | none => "no-twin"
+            | some g =>
+              let σ := σs f.name
+              let N := Ns f.name
+              if !(f.params.map (fun p => σ p.1) == g.params.map (·.1)) then "params"
+              else if !aeE σ f.body g.body then "shape"
+              else if !injOn σ N then "not-injective"
+              else if !(inE N f.body && f.params.all (fun p => N.contains p.1)) then "names"
+              else if !scC (fun x => σ x != x) [] f.body then "moved-name-not-let-bound-or-closure-param"
+              else "?"
+          | none => if !implsAgree W.impls S.impls then "impls" else "extra-or-duplicate-function"
         match bad, extra with
-        | none, none =>
-          if S.fns.all (fun f => cfE f.body) then s!"{id}\tdiffer\tvalidator-rejects-closure-free-program"
-          else s!"{id}\tequiv\thas-closures\tfns={S.fns.length}"
+        | none, none => s!"{id}\tequiv\tunverified\t{why}\tfns={S.fns.length}\twith-closures={nclos}"
         | some f, _ => s!"{id}\tdiffer\t{f.name}"
         | none, some g => s!"{id}\tdiffer\textra:{g.name}"
     | _, _ => s!"{id}\tdecode-error"
